@@ -5,6 +5,7 @@
 # License: http://snmplabs.com/pysmi/license.html
 #
 import os
+import sys
 import time
 import struct
 try:
@@ -27,6 +28,10 @@ except ImportError:
                        if s[2] == imp.PY_SOURCE]
     BYTECODE_SUFFIXES = [s[0] for s in imp.get_suffixes()
                          if s[2] == imp.PY_COMPILED]
+
+# offset of the source modification time in a .pyc header: since Python 3.7
+# (PEP 552) a flags word sits between the magic number and the time stamp
+PYC_TIME_OFFSET = sys.version_info[:2] >= (3, 7) and 8 or 4
 
 from pysmi.searcher.base import AbstractSearcher
 from pysmi.searcher.pyfile import PyFileSearcher
@@ -104,8 +109,7 @@ class PyPackageSearcher(AbstractSearcher):
 
             pyData = self.__loader.get_data(f)
             if pyData[:4] == PY_MAGIC_NUMBER:
-                pyData = pyData[4:]
-                pyTime = struct.unpack('<L', pyData[:4])[0]
+                pyTime = struct.unpack('<L', pyData[PYC_TIME_OFFSET:PYC_TIME_OFFSET + 4])[0]
                 debug.logger & debug.flagSearcher and debug.logger(
                     'found %s, mtime %s' % (f, time.strftime("%a, %d %b %Y %H:%M:%S GMT", time.gmtime(pyTime))))
                 if pyTime >= mtime:
